@@ -1229,15 +1229,22 @@ def transform(fn, proceed, to_instrument=True, set_conformer=True):
     # glb): the module's own names are never rebound, not even temporarily.
     fname = fn.__name__
     scratch = {}
-    exec(new_fn, glb, scratch)
 
     try:
         from codefind import code_registry
 
-        co = fn.__code__
-        code_registry.assimilate(co, (co.co_filename,))
+        # The helper is only a carrier for its code. Executing its definition
+        # would make codefind file that code (and the code of the functions
+        # nested in it) under the helper's bare name in this file, hiding
+        # whatever function really lives at that path.
+        code_registry.assimilate = lambda *args, **kwargs: None
     except ImportError:  # pragma: no cover
-        pass
+        code_registry = None
+    try:
+        exec(new_fn, glb, scratch)
+    finally:
+        if code_registry is not None:
+            del code_registry.assimilate
 
     # Get the new function (populated with exec)
     if "#WRAP" in scratch:
